@@ -21,6 +21,40 @@
 #endif
 const int sim_flavour = SIM_FLAVOUR;
 
+#if SIM_FLAVOUR == SIM_PLAIN && __has_include(<valgrind/drd.h>)
+#include <valgrind/drd.h>
+#include <valgrind/valgrind.h>
+#define SIM_HAVE_DRD 1
+static int g_drd = -1;
+int sim_drd_mode(void) {
+  if (g_drd < 0) g_drd = RUNNING_ON_VALGRIND ? 1 : 0;
+  return g_drd;
+}
+static __thread int t_drd_inlib;
+static inline void drd_record(int on) {
+  if (on) {
+    ANNOTATE_IGNORE_READS_AND_WRITES_END();
+  } else {
+    ANNOTATE_IGNORE_READS_AND_WRITES_BEGIN();
+  }
+}
+void sim_drd_thread_init(void) {
+  if (sim_drd_mode()) {
+    t_drd_inlib = 0;
+    drd_record(0);
+  }
+}
+unsigned sim_drd_error_count(void) { return sim_drd_mode() ? (unsigned)VALGRIND_COUNT_ERRORS : 0; }
+#define DRD_HEAP_ENTER() do { if (g_drd > 0 && t_drd_inlib) drd_record(0); } while (0)
+#define DRD_HEAP_LEAVE() do { if (g_drd > 0 && t_drd_inlib) drd_record(1); } while (0)
+#else
+int sim_drd_mode(void) { return 0; }
+void sim_drd_thread_init(void) {}
+unsigned sim_drd_error_count(void) { return 0; }
+#define DRD_HEAP_ENTER() do { } while (0)
+#define DRD_HEAP_LEAVE() do { } while (0)
+#endif
+
 #define PAGE 4096ull
 #define CHUNK (1ull << 30)
 
@@ -264,7 +298,7 @@ void sim_set_reuse(int on) {
   (void)on;
   g_reuse = 0;
 #else
-  g_reuse = on;
+  g_reuse = on && !sim_drd_mode();  // a race detector would pair the accesses of two lifetimes of one address
 #endif
 }
 static void really_release(blk_t* b) {
@@ -436,6 +470,7 @@ static blk_t* cache_take(size_t size, size_t align) {
 }
 static void* lib_alloc(size_t size, size_t align, int zero) {
   if (align < 16) align = 16;
+  DRD_HEAP_ENTER();
   hlock();
   blk_t* b = g_reuse && size ? cache_take(size, align) : NULL;
   if (!b) b = new_block(size, align, 0, 0, 1, -1);
@@ -446,6 +481,7 @@ static void* lib_alloc(size_t size, size_t align, int zero) {
     else
       sim_fill(b->start, size, g_lib_fill, g_lib_fill_seed + b->seq);
   }
+  DRD_HEAP_LEAVE();
   return b->start;
 }
 void* __wrap_malloc(size_t size) { return lib_alloc(size, 16, 0); }
@@ -462,6 +498,7 @@ void __wrap_free(void* p) {
     __real_free(p);
     return;
   }
+  DRD_HEAP_ENTER();
   hlock();
   blk_t* b = find_block(p);
   if (!b || b->start != (uint8_t*)p) die("simrt: free() of a pointer that is not the start of a simulated block");
@@ -471,6 +508,7 @@ void __wrap_free(void* p) {
   }
   release_block(b);
   hunlock();
+  DRD_HEAP_LEAVE();
 }
 size_t __wrap_malloc_usable_size(void* p) {
   if (!p) return 0;
@@ -761,6 +799,7 @@ void sim_sched_begin(int ntasks, const sim_sched_cfg* cfg) {
 
 void sim_task_enter(int id) {
   t_self = id;
+  sim_drd_thread_init();
   wait_go(id);
 }
 
@@ -836,6 +875,12 @@ uint64_t sim_harness_point(int kind, int op) {
 }
 void sim_in_lib(int op) {
   if (t_self >= 0) T[t_self].in_lib = op;
+#ifdef SIM_HAVE_DRD
+  if (g_drd > 0) {
+    t_drd_inlib = op != 0;
+    drd_record(op != 0);
+  }
+#endif
 }
 void sim_sched_get_stats(sim_sched_stats* st) {
   g_st.ndecisions = g_ndec;
